@@ -47,6 +47,14 @@ def render(name, s, e, nlook, shape=None):
         # the other thread's whole call falls inside ours: A.START B.START B.END A.END
         evs = [E.ev(name, 1, s), E.ev(name, 1, s, tid=2), E.ev(name, 2, (0x9a, 0x9b9b, 0x9c9c, 0x9d9d), tid=2)] + mid + [E.ev(name, 2, e)]
         judged = len(evs) - 1
+    if shape == 'after-an-open-that-returned-the-first-word':
+        # history: an earlier successful open() of the same thread returned, as its descriptor, the value this call's first START word holds
+        from mc import build as B
+        pre = [E.ev('BSC_open', 1, (1, 0, 0, 0))] + [E.ev('VFS_LOOKUP', q, data=d) for d, q in B.lookup_chunks(0x71, '/tmp/spool/a')] + [E.ev('BSC_open', 2, (0, s[0], 0, 0))]
+        evs = pre + evs
+        judged = len(evs) - 1
+        out = [t for t in p.feed_generator(E.restamp(evs)) if t.ktraces[-1].eventid == E.n2i(name) and t.ktraces[-1].timestamp == judged]
+        return E.stable_str(out[0]) if len(out) == 1 else None
     if shape == 'tables-name-the-words':
         # the parser's thread / process tables know every word of the END record as a thread id and as a process id (with names that
         # look like results): the result part is a function of the END record alone
@@ -176,7 +184,7 @@ def judge_decoder(name, starts, nlooks, acc, full=True):
             for err in (ERRS if (full or si == 0) and not ood else (0, 2, 9999, M64)):
                 for ret in RETS:
                     for tail in TAILS:
-                      for shape in ((None, 'long', 'crossing', 'enclosing', 'odd-timestamps', 'other-open-inside', 'other-open-before', 'same-thread-crossing', 'start-without-end-after', 'with-related-records', 'nested-then-orphan-end', 'brace-path', 'tables-name-the-words') if (err in (0, 2, 9999) and ret in (0x55, M64) and tail == TAILS[1] and si == 0) else (None,)):
+                      for shape in ((None, 'long', 'crossing', 'enclosing', 'odd-timestamps', 'other-open-inside', 'other-open-before', 'same-thread-crossing', 'start-without-end-after', 'with-related-records', 'nested-then-orphan-end', 'brace-path', 'tables-name-the-words', 'after-an-open-that-returned-the-first-word') if (err in (0, 2, 9999) and ret in (0x55, M64) and tail == TAILS[1] and si == 0) else (None,)):
                         if shape == 'brace-path' and name == 'BSC_fsgetpath':
                             continue       # its result part quotes the looked-up path (the documented leniency): nothing to compare with
                         e = (err, ret) + tail
